@@ -21,7 +21,9 @@ RULE = (
     "between reading those and pushing the text. R5 strip_trailing_whitespace runs only under the option, on the final string, "
     "and only trims line ends. R6 units: no byte length (str::len / String::len) flows into state.col or an anchor column. R7 every "
     "write to state.out outside the flush / break / comment helpers is preceded on every path by flush_pending(_with_indent), in the "
-    "function itself or at every call site of a helper: text written while an indent is pending shifts the cursor of that line."
+    "function itself or at every call site of a helper: text written while an indent is pending shifts the cursor of that line. R8 state.col "
+    "is reset to 0 only where the last text written to state.out on every path is opts.newline. R9 every write to state.out (String's "
+    "appenders or a helper that appends to a &mut String parameter) is followed on every path to the return by a write of state.col."
 )
 
 CRATES = ["veryl_pretty"]
@@ -36,6 +38,68 @@ CONTENT = ["Text", "Concat", "Indent", "Group", "ForceFlat", "Line", "Hardline",
 def _is_state_out(fn, op, state_arg):
     r, p = flow.access_path(fn, op)
     return r == ("arg", state_arg) and p == ("out",)
+
+
+STR_APPEND = re.compile(r"^alloc::string::String::(push|push_str|insert|insert_str|extend_from_within)$|"
+                        r"^<alloc::string::String as (core::iter::(traits::collect::)?Extend<.*>|core::fmt::Write|core::ops::(arith::)?AddAssign<.*>)>::(extend|extend_one|write_str|write_char|write_fmt|add_assign)$")
+_WR = {}
+
+
+def string_writers(w):
+    """{fn path: {argument local}}: helpers of veryl_pretty::render that append to a `&mut String` parameter, directly or through
+    another such helper (so `push_spaces(&mut state.out, n)` is a write to state.out at its call site)."""
+    key = id(w)
+    if key in _WR:
+        return _WR[key]
+    wr = {}
+    fns = {p: x for p, x in w.fns.items() if p.startswith(M) and not x.get("alias_of") and "::tests::" not in p}
+    cache = {}
+    changed = True
+    while changed:
+        changed = False
+        for p, x in sorted(fns.items()):
+            if not any(c["c"] and (STR_APPEND.search(c["c"]) or c["c"] in wr) for c in x["calls"]):
+                continue
+            g = cache.get(p)
+            if g is None:
+                g = cache[p] = Fn(w.mir(p))
+            for bi, t in g.calls():
+                c = t.get("callee") or ""
+                if STR_APPEND.search(c):
+                    recv = [0]
+                elif c in wr and c != p:
+                    recv = [k - 1 for k in wr[c]]
+                else:
+                    continue
+                for k in recv:
+                    if k >= len(t["args"]):
+                        continue
+                    r, pth = flow.access_path(g, t["args"][k])
+                    if r[0] == "arg" and pth == () and r[1] not in wr.get(p, set()):
+                        wr.setdefault(p, set()).add(r[1])
+                        changed = True
+    _WR.clear()
+    _WR[key] = wr
+    return wr
+
+
+def out_writes(w, fn, a_state):
+    """[(bb, terminator, payload operands)] calls that append to state.out: String's own appenders and the string helpers above."""
+    wr = string_writers(w)
+    out = []
+    for bi, t in fn.calls():
+        c = t.get("callee") or ""
+        if STR_APPEND.search(c):
+            recv = [0]
+        elif c in wr:
+            recv = [k - 1 for k in wr[c]]
+        else:
+            continue
+        for k in recv:
+            if k < len(t["args"]) and _is_state_out(fn, t["args"][k], a_state):
+                out.append((bi, t, [a for j, a in enumerate(t["args"]) if j != k]))
+                break
+    return out
 
 
 def _payload(fn, op, variant, idx="0"):
@@ -213,7 +277,7 @@ def run(world, tier, info, only=None):
             if text_payload:
                 pushes = [b for b in flow.call_blocks(f, PUSH_STR, lambda fn, t: _is_state_out(fn, t["args"][0], A_STATE) and _payload(fn, t["args"][1], v)) if b in region]
             else:
-                pushes = [b for b in flow.call_blocks(f, r"^alloc::string::String::push(_str)?$", lambda fn, t: _is_state_out(fn, t["args"][0], A_STATE)) if b in region]
+                pushes = [b for b, _, _ in out_writes(w, f, A_STATE) if b in region]
             if not pushes:
                 ck.ob("R3", "render_frame/%s/pushes" % v, False, site(s_rf), "the Doc::%s arm never writes to state.out" % v)
                 return
@@ -300,14 +364,14 @@ def run(world, tier, info, only=None):
     for p7, s7 in sorted(w.fns.items()):
         if not p7.startswith(M) or s7.get("alias_of") or "::tests::" in p7 or p7 in EXEMPT7:
             continue
-        if not any(re.search(r"^alloc::string::String::push(_str)?$", c["c"] or "") for c in s7["calls"]):
+        if not any(c["c"] and (STR_APPEND.search(c["c"]) or c["c"] in string_writers(w)) for c in s7["calls"]):
             continue
         g7 = Fn(w.mir(p7))
         an7 = {g7.name(i): i for i in range(1, g7.nargs + 1)}
         if "state" not in an7:
             continue
         m7 = MustFacts(g7)
-        pushes7 = [(bi, t) for bi, t in g7.calls(r"^alloc::string::String::push(_str)?$") if _is_state_out(g7, t["args"][0], an7["state"])]
+        pushes7 = [(bi, t) for bi, t, _ in out_writes(w, g7, an7["state"])]
         for bi, t in pushes7:
             n7 += 1
             F = m7.at_entry(bi) or ()
@@ -330,7 +394,14 @@ def run(world, tier, info, only=None):
                   why if ok else "state.out is written while an indent may still be pending: the indent is flushed later with an absolute column, "
                   "so the cursor (and every anchor recorded after it on that line) is off by what was written here")
     ck.floor("R7", "writes to state.out outside the flush/break/comment helpers", n7, 8)
-    # ------------------------------------------------------------------ R6 units
+    cursor_obligations(ck, w)
+    n_col = col_units(ck, w)
+    ck.analysed = {"functions": [M + n for n in need], "doc_variants": variants, "col_writes": n_col}
+    return ck.finish(info)
+
+
+# ------------------------------------------------------------------ R6 units
+def col_units(ck, w, R6="R6", floor=True):
     n_col = 0
     for name in ("render_frame", "emit_anchored", "render_comments", "emit_break", "flush_pending", "flush_pending_with_indent"):
         p = M + name
@@ -345,11 +416,86 @@ def run(world, tier, info, only=None):
             for o in ops:
                 srcs |= g.prov(o, depth=16)
             lens = sorted({x[1] for x in srcs if x[0] == "call" and re.search(r"(str>|String|impl str>)::len$", x[1] or "")})
-            ck.ob("R6", "col-is-chars:%s@%d" % (name, _nth(g, bi, si, "col")), not lens, site(w.fns[p], s[3]),
+            ck.ob(R6, "col-is-chars:%s@%d" % (name, _nth(g, bi, si, "col")), not lens, site(w.fns[p], s[3]),
                   "state.col is advanced by a character count" if not lens else "state.col receives a byte length (%s): columns drift on non-ASCII text" % lens)
-    ck.floor("R6", "writes to state.col", n_col, 10)
-    ck.analysed = {"functions": [M + n for n in need], "doc_variants": variants, "col_writes": n_col}
-    return ck.finish(info)
+    if floor:
+        ck.floor(R6, "writes to state.col", n_col, 10)
+    return n_col
+
+
+# ------------------------------------------------------------------ the cursor follows the text (R8 + R9)
+def cursor_obligations(ck, w, R8="R8", R9="R9", floors=True):
+    """R8: `state.col = 0` only where the last thing written to state.out on every path is the newline (opts.newline) - a column reset
+    anywhere else loses the text already on the line. R9: every write to state.out is followed, on every path to the function's return,
+    by a write of state.col (or by a newline helper that resets it)."""
+    n8 = n9 = 0
+    for p, x in sorted(w.fns.items()):
+        if not p.startswith(M) or x.get("alias_of") or "::tests::" in p:
+            continue
+        if not any(c["c"] and (STR_APPEND.search(c["c"]) or c["c"] in string_writers(w)) for c in x["calls"]):
+            continue
+        g = Fn(w.mir(p))
+        an = {g.name(i): i for i in range(1, g.nargs + 1)}
+        if "state" not in an:
+            continue
+        a_state = an["state"]
+        a_opts = an.get("opts")
+        ow = out_writes(w, g, a_state)
+        if not ow:
+            continue
+        short = p.split("::")[-1]
+        # ---- R8: forward "what was written last" (NL / TEXT / none yet), joined over paths
+        kind = {}
+        for bi, t, pay in ow:
+            nl = False
+            for a in pay:
+                r, pth = flow.access_path(g, a)
+                if a_opts is not None and r == ("arg", a_opts) and pth == ("newline",):
+                    nl = True
+            kind[bi] = "NL" if nl else "TEXT"
+        st_in = {0: "NONE"}
+        work = [0]
+        while work:
+            b = work.pop()
+            v = kind.get(b, st_in[b])
+            for sc in g.succ[b]:
+                if g.blocks[sc].get("cu"):
+                    continue
+                old = st_in.get(sc)
+                new = v if old is None or old == v else "MIXED"
+                if new != old:
+                    st_in[sc] = new
+                    work.append(sc)
+        colw = flow.field_writes(g, r"render::State$", "col")
+        for bi, si, stx in colw:
+            rv = stx[2]
+            if rv[0] == "use" and rv[1][0] == "k" and isinstance(rv[1][1], dict) and rv[1][1].get("int") == "0":
+                n8 += 1
+                last = st_in.get(bi, "UNREACHABLE")
+                ok = last in ("NL", "UNREACHABLE")
+                ck.ob(R8, "col-reset-after-newline:%s@%d" % (short, _nth(g, bi, si, "col")), ok, site(x, stx[3]),
+                      "state.col is reset to 0 right after the newline was written" if ok else
+                      "state.col is reset to 0 where the last text written to state.out is %s: the characters after the last line "
+                      "break of that text are on the current line, so every anchor recorded later on this line is too far left" %
+                      {"TEXT": "not the newline", "MIXED": "not the newline on some path", "NONE": "unknown (nothing written in this function)"}[last])
+        # ---- R9: a write is followed by a cursor update
+        NLH = [bi for bi, t in g.calls("^" + re.escape(M) + "(emit_break)$")]
+        gates = sorted({bi for bi, _, _ in colw} | set(NLH))
+        for bi, t, pay in ow:
+            n9 += 1
+            nxt = t.get("to")
+            if nxt is None:
+                continue
+            # statements of the successor block run after the call; a col write there is a gate like any other
+            esc = flow.escapes(g, nxt, gates)
+            ck.ob(R9, "cursor-follows-write:%s@%d" % (short, _ordinal_call(g, [(b, tt) for b, tt, _ in ow], bi)), not esc, site(x, t["l"]),
+                  "every path from this write to the return updates state.col" if not esc else
+                  "text is written to state.out and the function can return (blocks %s) without updating state.col: the cursor, and every "
+                  "anchor recorded after it on this line, lags behind the text" % esc)
+    if floors:
+        ck.floor(R8, "column resets", n8, 3)
+        ck.floor(R9, "writes to state.out", n9, 14)
+    return n8, n9
 
 
 # ------------------------------------------------------------------ emit_anchored / render_comments (R2 + R4)
